@@ -56,6 +56,89 @@ def chain_rows(rng):
     return rows, prms
 
 
+def owned_chain_rows(rng):
+    """Chains of thin decks, each *seen by a subset of the ceilometers only* (with a small per-ceilometer height
+    offset), under EXCLUDE_FOR_BASE_HEIGHT_CALC: a deck seen by excluded instruments only falls back to all its
+    hits; once merged with a deck that has enough other hits the fall-back no longer applies and the base moves."""
+    names = ['a', 'b', 'c'][:rng.choice([2, 2, 3])]
+    n_steps = rng.choice([12, 20, 30])
+    S = rng.choice([250, 500, 100])
+    base = rng.choice([400, 1000, 3000, 9000])
+    k = rng.choice([3, 3, 4, 5])
+    hs = [base]
+    for _ in range(k - 1):
+        hs.append(hs[-1] + rng.choice([S * 4 // 5, S * 4 // 5, S * 3 // 5, S // 2, S - 1, S, S + 1, 2 * S]))
+    excl = rng.sample(names, rng.randint(1, len(names) - 1)) if rng.random() < 0.9 else []
+    rest = [c for c in names if c not in excl]
+    decks = []
+    for h in hs:
+        r = rng.random()
+        if excl and r < 0.4:
+            owners = rng.sample(excl, rng.randint(1, len(excl)))          # seen by excluded instruments only: fall-back
+        elif r < 0.75:
+            owners = rng.sample(rest, rng.randint(1, len(rest)))
+        else:
+            owners = rng.sample(names, rng.randint(1, len(names)))
+        if excl and rng.random() < 0.2:                                     # a few stray hits of the other kind
+            owners = list(set(owners) | {rng.choice(names)})
+        decks.append({c: (h + rng.choice([0, 0, S // 10, -(S // 10), S // 4]),
+                          rng.choice([1, 2, 3]) if (c not in owners[:1] and rng.random() < 0.3)
+                          else rng.randint(max(2, n_steps // 3), n_steps))
+                      for c in owners})
+    rows = []
+    for ci, c in enumerate(names):
+        for s_ in range(n_steps):
+            dt = -(n_steps - s_) * 15.0 + 5.0 * ci * rng.choice([0, 1])
+            here = sorted(float(d[c][0] + rng.choice([0, 0, 3, -3])) for d in decks if c in d and s_ < d[c][1])
+            if not here:
+                rows.append((c, dt, float('nan'), 0))
+            for t_, h in enumerate(here):
+                rows.append((c, dt, h, t_ + 1))
+    prms = {'MIN_SEP_VALS': [S, 4 * S], 'MIN_SEP_LIMS': [rng.choice([10000, 5000, hs[-1]])],
+            'MAX_HITS_OKTA0': rng.choice([0, 1, 3]),
+            'EXCLUDE_FOR_BASE_HEIGHT_CALC': excl}
+    if rng.random() < 0.4:
+        prms['BASE_LVL_HEIGHT_PERC'] = rng.choice([0, 5, 50, 95, 100])
+    if rng.random() < 0.3:
+        prms['BASE_LVL_LOOKBACK_PERC'] = rng.choice([10, 40, 70])
+    order = rng.choice(['asc', 'asc', 'desc', 'shuffled'])
+    if order == 'desc':
+        rows = rows[::-1]
+    elif order == 'shuffled':
+        rng.shuffle(rows)
+    return rows, prms
+
+
+def interleave_rows(rng):
+    """Sets that interleave in height: a cloud base climbing (or sinking) steadily, a pause without detections, then a
+    flat cloud whose height lies inside the range swept by the first.  The two are far apart in time and stay separate
+    groups / layers, and the order of their *base* heights is the opposite of the order of their mean (or maximum,
+    or first-seen) heights: whatever orders the tables must be the base."""
+    n_ramp, n_gap, n_late = rng.choice([20, 29, 40]), rng.choice([6, 8, 12]), rng.choice([6, 9, 15])
+    h0 = rng.choice([300.0, 1000.0, 4000.0])
+    rise = rng.choice([600.0, 800.0, 1200.0])
+    h_late = h0 + rise * rng.choice([0.3, 0.45, 0.6])
+    step = rng.choice([30.0, 20.0])
+    n = n_ramp + n_gap + n_late
+    order_first = rng.random() < 0.5                     # ramp first, or flat cloud first
+    rows = []
+    for i in range(n):
+        dt = -step * (n - 1 - i)
+        j = i if order_first else n - 1 - i
+        if j < n_ramp:
+            rows.append(('A', dt, h0 + rise * j / (n_ramp - 1), 1))
+        elif j < n_ramp + n_gap:
+            rows.append(('A', dt, float('nan'), 0))
+        else:
+            rows.append(('A', dt, h_late + 10.0 * ((j * 7) % 5), 1))
+    prms = {}
+    if rng.random() < 0.4:
+        prms['MSA'] = rng.choice([h0 + rise * 2, 10000, h_late + 100])
+    if rng.random() < 0.3:
+        prms['BASE_LVL_HEIGHT_PERC'] = rng.choice([0, 5, 50])
+    return rows, prms
+
+
 def split_rows(rng):
     """One or two groups of >= 30 hits that are bi/tri-modal (mixture engaged), drifting, any row order."""
     n = rng.choice([30, 45, 60, 90])
@@ -136,13 +219,15 @@ def crop_rows(rng):
     return rows, prms
 
 
-def many_slices_rows(rng):
-    """> 100 slices (low distance threshold) with one splittable group: exercises the sub-layer id offset."""
+def many_slices_rows(rng, k=None):
+    """Around and beyond 100 / 200 slices (low distance threshold) with one splittable group as the lowest one:
+    exercises the sub-layer id offset, in particular a largest inherited group id of exactly 99, 100, 101, 199, 200."""
     rows = []
     t = -5000.0
     for i in range(40):
         rows.append(('0', t, 200.0 if i % 2 == 0 else 530.0, 1)); t += 10
-    ns = rng.choice([60, 101, 104, 130])
+    sizes = [98, 198, 99, 100, 199, 104, 60, 200, 130, 101]
+    ns = sizes[k % len(sizes)] if k is not None else rng.choice(sizes)
     for s in range(ns):
         for _ in range(2):
             rows.append(('0', t, 1000.0 + 400.0 * s, 1)); t += 10
@@ -188,6 +273,35 @@ def drift_rows(rng):
     return rows, prms
 
 
+def twin_prms(rng, prms0, j=1):
+    """The same per-call parameters with one to three leaves changed (LOWESS, mixture, base level, padding, scaling,
+    okta buffer): for runs on the SAME hits whose results must not leak into each other (anything keyed on the data
+    alone - a cache, a memo - would hand one run the other's intermediate results)."""
+    import copy
+    pj = copy.deepcopy(prms0)
+    for _ in range(rng.choice([1, 2, 3])):
+        what = rng.choice(['lowess_frac', 'lowess_it', 'gain', 'rescale', 'perc', 'pad', 'minrange', 'okta0', 'lookback'])
+        if what == 'lowess_frac':
+            pj['LOWESS'] = dict(pj.get('LOWESS', {}), frac=[0.9, 0.15, 0.5, 1.0][j % 4])
+        elif what == 'lowess_it':
+            pj['LOWESS'] = dict(pj.get('LOWESS', {}), it=[1, 5, 2, 0][j % 4])
+        elif what == 'gain':
+            pj.setdefault('LAYERING_PRMS', {}).setdefault('gmm_kwargs', {})['delta_mul_gain'] = [0.6, 1.0, 0.8][j % 3]
+        elif what == 'rescale':
+            pj.setdefault('LAYERING_PRMS', {}).setdefault('gmm_kwargs', {})['rescale_0_to_x'] = [10, None, 1000][j % 3]
+        elif what == 'perc':
+            pj['BASE_LVL_HEIGHT_PERC'] = [50, 95, 0][j % 3]
+        elif what == 'pad':
+            pj['GROUPING_PRMS'] = dict(pj.get('GROUPING_PRMS', {}), height_pad_perc=[40, 5, 100][j % 3])
+        elif what == 'minrange':
+            pj.setdefault('SLICING_PRMS', {})['height_scale_kwargs'] = {'min_range': [300, 8000, 50][j % 3]}
+        elif what == 'lookback':
+            pj['BASE_LVL_LOOKBACK_PERC'] = [50, 20, 100][j % 3]
+        else:
+            pj['MAX_HITS_OKTA0'] = [0, 5, 1][j % 3]
+    return pj
+
+
 def gen_scene(seed, k, family):
     rng = random.Random(f'{seed}:{family}:{k}')
     meta = {'family': family, 'k': k}
@@ -195,13 +309,17 @@ def gen_scene(seed, k, family):
         return tablecheck.gen_scene(seed, k, family)
     if family == 'chain':
         rows, prms = chain_rows(rng)
+    elif family == 'owned':
+        rows, prms = owned_chain_rows(rng)
+    elif family == 'interleave':
+        rows, prms = interleave_rows(rng)
     elif family == 'split':
         rows, prms, order = split_rows(rng)
         meta['order'] = order
     elif family == 'crop':
         rows, prms = crop_rows(rng)
     elif family == 'manyslices':
-        rows, prms = many_slices_rows(rng)
+        rows, prms = many_slices_rows(rng, k)
     elif family == 'bundle':
         rows, prms = bundle_rows(rng)
     elif family == 'drift':
@@ -260,7 +378,7 @@ def _work(args):
 
 
 FAMILIES = (('synth', 0.27), ('exact', 0.08), ('degenerate', 0.08), ('multi', 0.07), ('chain', 0.14), ('split', 0.14),
-            ('crop', 0.11), ('bundle', 0.04), ('drift', 0.06), ('manyslices', 0.01))
+            ('crop', 0.11), ('bundle', 0.04), ('drift', 0.06), ('manyslices', 0.012), ('owned', 0.08), ('interleave', 0.04))
 
 
 def run_pipeline(chk, prop, n_scenes, families=FAMILIES, crash_is_violation=False):
@@ -308,7 +426,8 @@ def run_pipeline(chk, prop, n_scenes, families=FAMILIES, crash_is_violation=Fals
             chk.count('float_near_tie_scenes_not_compared')
             chk.notes.append(f"float-near-tie scene {task}: {a['near_tie'][:3]}")
         if a['bad']:
-            raise common.InfraError(f'driver rejected the request of scene {task}: {answers[task][:200]}')
+            chk.mismatch('what the implementation produced cannot be expressed as a model request (driver: bad-request)', answers[task][:200], replay)
+            continue
         for ne in a['ne']:
             if any(key in ne.split(' ')[0] for key in rules['ne']):
                 chk.mismatch('cascade model = implementation', ne[:300], replay)
